@@ -2,7 +2,7 @@ import AtreeProofs.Trans.MapDescent
 import AtreeProofs.Props.TransElemsGet
 /-
   MAP DESCENT, reads (WP13): the generated `MapMetaDataSlab.getChildSlabByDigest / Get`, `MapSlab.Get` (dispatch),
-  `OrderedMap.get / Has / Count` of `AtreeModel/Gen/TransMapDescent.lean`, run over a HEAP of slabs (`envD`: `getMapSlab`
+  `OrderedMap.get / Has` of `AtreeModel/Gen/TransMapDescent.lean`, run over a HEAP of slabs (`envD`: `getMapSlab`
   reads what `Store` wrote), equal the model's `MTree.get` / `OMap.get / has` on EMBEDDED trees, for every depth.
   No hypothesis about generated code except `ElemsSpec` (the element layer `eb` is the model's on the elements of the
   data slabs that satisfy `P`), which WP11's `EnvB` witnesses and the closed element layer discharge.
@@ -251,16 +251,6 @@ theorem Ob_OrderedMap_Has_heap (cfg : MCfg) (k : MKey) (v : Elem) (P : DG r → 
   rcases hg : m.get cfg k with e | ⟨k', v'⟩
   · cases e <;> simp [md_rMapGet]
   · simp [md_rMapGet]
-
-/-- `OrderedMap.Count` reads the count kept in the root's extra data -/
-theorem Ob_OrderedMap_Count_heap' (m : OMap r) (s : MHSt r) :
-    OrderedMap_Count (envD T eb rs) (md_map m s) = some (u64 m.count) := by
-  unfold OrderedMap_Count
-  have : MapSlab.extraData_ (md_map m s).root = some (md_extra m) := by
-    obtain ⟨d, root, ty, cnt, seed⟩ := m
-    cases d <;> rfl
-  rw [this]
-  rfl
 
 end
 end Atree.TransEq
